@@ -15,6 +15,23 @@ def snapshot_arrays(*arrs):
     return [np.array(a, copy=True) for a in arrs]
 
 
+def pow2_exponent(x):
+    """Binary exponent e of the largest magnitude in x (0 for an all-zero / empty array): ldexp(x, -e) has its largest entry in [0.5, 1)."""
+    x = np.asarray(x)
+    m = float(np.max(np.abs(x), initial=0)) if x.size else 0.0
+    return int(np.frexp(m)[1]) if m > 0 and np.isfinite(m) else 0
+
+
+def ldexp(x, k):
+    """Exact scaling by 2**k of a real or complex array."""
+    x = np.asarray(x)
+    if k == 0:
+        return x
+    if np.iscomplexobj(x):
+        return np.ldexp(x.real, k) + 1j * np.ldexp(x.imag, k)
+    return np.ldexp(x.astype(float) if not np.issubdtype(x.dtype, np.floating) else x, k)
+
+
 def same_bits(a, b):
     a = np.asarray(a)
     b = np.asarray(b)
@@ -36,6 +53,13 @@ def check_qr(ctx, A0, q0_0, q1_0, args_after, result, in_situ=False, tag='qr'):
     m, n = A0.shape
     Q = np.asarray(Q)
     R = np.asarray(R)
+    A_live = A0
+    e = pow2_exponent(A0)
+    if abs(e) > 300:
+        # very small / large entries: compare after an exact rescaling by a power of two (the oracle's own norms would under/overflow)
+        A0 = ldexp(A0, -e)
+        R = ldexp(R, -e)
+        ctx.event('oracle_rescaled_by_power_of_two')
     qi_arr = np.asarray(qi)
     k = Q.shape[1] if Q.ndim == 2 else -1
     shapes_ok = (Q.ndim == 2 and R.ndim == 2 and Q.shape == (m, k) and R.shape == (k, n) and qi_arr.ndim == 1
@@ -56,7 +80,7 @@ def check_qr(ctx, A0, q0_0, q1_0, args_after, result, in_situ=False, tag='qr'):
     if args_after is not None:
         A1, q0_1, q1_1 = args_after
         ctx.ok(f'{tag}.operands-unchanged',
-               same_bits(A1, A0) and np.array_equal(np.asarray(q0_1), q0_0) and np.array_equal(np.asarray(q1_1), q1_0),
+               same_bits(A1, A_live) and np.array_equal(np.asarray(q0_1), q0_0) and np.array_equal(np.asarray(q1_1), q1_0),
                'qr modified an argument', detail, s)
 
 
@@ -94,9 +118,16 @@ def check_svd(ctx, A0, q0_0, q1_0, tol, args_after, result, in_situ=False, tag='
         return
     u, sv, v, q = (np.asarray(x) for x in result)
     m, n = A0.shape
+    A_live = A0
+    e = pow2_exponent(A0)
+    if abs(e) > 300:
+        # very small / large entries: compare after an exact rescaling by a power of two (the oracle's own norms would under/overflow)
+        A0 = ldexp(A0, -e)
+        sv = ldexp(sv, -e) if sv.ndim == 1 and np.issubdtype(sv.dtype, np.floating) else sv
+        ctx.event('oracle_rescaled_by_power_of_two')
     nA = _fro(A0)
     if args_after is not None:
-        ctx.ok(f'{tag}.input-unchanged', same_bits(args_after[0], A0)
+        ctx.ok(f'{tag}.input-unchanged', same_bits(args_after[0], A_live)
                and np.array_equal(np.asarray(args_after[1]), q0_0) and np.array_equal(np.asarray(args_after[2]), q1_0),
                'split_matrix_svd modified an argument', detail, s)
     if nA == 0:
@@ -155,6 +186,10 @@ def check_retained(ctx, s0, tol, s_after, idx, in_situ=False, tag='retained', ex
     idx = np.asarray(idx)
     if s_after is not None:
         ctx.ok(f'{tag}.input-unchanged', same_bits(s_after, s0), 'retained_bond_indices modified its argument', detail, si)
+    e = pow2_exponent(s0)
+    if abs(e) > 300:
+        s0 = ldexp(np.asarray(s0, dtype=float), -e)
+        ctx.event('oracle_rescaled_by_power_of_two')
     w = float(np.linalg.norm(s0))
     if w == 0:
         ctx.ok(f'{tag}.zero', idx.size == 0, 'zero spectrum must retain nothing', detail, si)
